@@ -179,24 +179,93 @@ type c10ClientCase struct {
 	Proto Proto         `json:"proto"`
 	Kind  Kind          `json:"kind"`
 	D     time.Duration `json:"d"` // 0 = no deadline
+	// Mode: how the time remaining when the request is sent comes to be D:
+	// "" the caller's context has D left; "reuse-request" ditto, but the
+	// *connect.Request already went through a call with 30 s left;
+	// "icpt-adds" no caller deadline, a client interceptor adds D;
+	// "icpt-shortens" caller has 10 D, an interceptor shortens to D;
+	// "icpt-slow" caller has D + 200 ms, an interceptor takes 200 ms.
+	Mode string `json:"mode,omitempty"`
+}
+
+// deadlineI is a client interceptor that changes or uses up the deadline.
+type deadlineI struct {
+	mode string
+	d    time.Duration
+}
+
+func (di deadlineI) ctx(ctx context.Context) context.Context {
+	switch di.mode {
+	case "icpt-adds", "icpt-shortens":
+		ctx, _ = context.WithTimeout(ctx, di.d) //nolint:govet // released with the bubble
+	case "icpt-slow":
+		time.Sleep(200 * time.Millisecond)
+	}
+	return ctx
+}
+
+func (di deadlineI) WrapUnary(next connect.UnaryFunc) connect.UnaryFunc {
+	return func(ctx context.Context, req connect.AnyRequest) (connect.AnyResponse, error) {
+		return next(di.ctx(ctx), req)
+	}
+}
+
+func (di deadlineI) WrapStreamingClient(next connect.StreamingClientFunc) connect.StreamingClientFunc {
+	return func(ctx context.Context, spec connect.Spec) connect.StreamingClientConn {
+		return next(di.ctx(ctx), spec)
+	}
+}
+
+func (di deadlineI) WrapStreamingHandler(next connect.StreamingHandlerFunc) connect.StreamingHandlerFunc {
+	return next
 }
 
 func c10ClientCheck(c *ev.Collector, k c10ClientCase) {
 	probe := &ctxProbe{}
 	h := c10Handler(k.Kind, probe)
 	tr := &memhttp.Transport{Handler: h, Proto: 2, SyncCloseReq: true}
-	cl := NewClient(tr, Cfg{Proto: k.Proto, Comp: CompNone})
+	var extra []connect.ClientOption
+	if strings.HasPrefix(k.Mode, "icpt-") {
+		extra = append(extra, connect.WithInterceptors(deadlineI{k.Mode, k.D}))
+	}
+	cl := NewClient(tr, Cfg{Proto: k.Proto, Comp: CompNone}, extra...)
 	ctx := context.Background()
 	cancel := func() {}
-	if k.D > 0 {
-		ctx, cancel = context.WithTimeout(ctx, k.D)
+	callerD := k.D
+	switch k.Mode {
+	case "icpt-adds":
+		callerD = 0
+	case "icpt-shortens":
+		callerD = 10 * k.D
+	case "icpt-slow":
+		callerD = k.D + 200*time.Millisecond
 	}
 	start := time.Now()
 	var res CallResult
-	g := Guarded(func() { res = RunCall(ctx, cl, k.Kind, [][]byte{{1}}, nil) }, tr)
+	var g GuardResult
+	if k.Mode == "reuse-request" {
+		// the same Request value first goes through a call with 30 s left
+		req := connect.NewRequest(&BV{Value: []byte{1}})
+		g = Guarded(func() {
+			ctx1, cancel1 := context.WithTimeout(context.Background(), 30*time.Second)
+			_, _ = cl.CallUnary(ctx1, req)
+			cancel1()
+			ctx, cancel = context.WithTimeout(context.Background(), k.D)
+			_, res.Err = cl.CallUnary(ctx, req)
+		}, tr)
+	} else {
+		if callerD > 0 {
+			ctx, cancel = context.WithTimeout(ctx, callerD)
+		}
+		g = GuardedFor(time.Hour, func() { res = RunCall(ctx, cl, k.Kind, [][]byte{{1}}, nil) }, tr)
+	}
 	cancel()
 	key := fmt.Sprintf("client/%s/%s/%d", k.Proto, k.Kind, int64(k.D))
 	tags := []string{"proto=" + k.Proto.String(), "side=client"}
+	if k.Mode != "" {
+		key += "/" + k.Mode
+		tags = append(tags, "mode="+k.Mode)
+	}
 	if k.D > 0 && k.D < time.Millisecond {
 		tags = append(tags, "sub-millisecond")
 	}
@@ -211,8 +280,8 @@ func c10ClientCheck(c *ev.Collector, k c10ClientCase) {
 		BailIfStuck(c, g)
 		return
 	}
-	if time.Since(start) != 0 {
-		c.HarnessError("%s: fake clock advanced during the call", key)
+	if el := time.Since(start); el != 0 && !(k.Mode == "icpt-slow" && (el == time.Hour || el == 200*time.Millisecond)) {
+		c.HarnessError("%s: fake clock advanced by %v during the call", key, el)
 		return
 	}
 	ex := tr.Last()
@@ -527,6 +596,25 @@ func TestC10(t *testing.T) {
 				Bubble(t, func() { c10ClientCheck(c, k) })
 				if idx%1777 == 0 {
 					c.Sample(map[string]any{"side": "client", "proto": p.String(), "kind": kind.String(), "remaining_ns": int64(d)})
+				}
+			}
+		}
+	}
+	// the remaining time comes about through a reused Request or a client interceptor
+	for _, p := range AllProtos {
+		for _, kind := range []Kind{KUnary, KServer, KBidi, KClient} {
+			for _, mode := range []string{"reuse-request", "icpt-adds", "icpt-shortens", "icpt-slow"} {
+				if mode == "reuse-request" && kind != KUnary {
+					continue
+				}
+				for _, d := range []time.Duration{1500 * time.Millisecond, 123456789, 2 * time.Hour} {
+					idx++
+					if !ev.Mine(idx) {
+						continue
+					}
+					k := c10ClientCase{Proto: p, Kind: kind, D: d, Mode: mode}
+					c.Case(fmt.Sprintf("client/%s/%s/%d/%s", p, kind, int64(d), mode), true)
+					Bubble(t, func() { c10ClientCheck(c, k) })
 				}
 			}
 		}
